@@ -346,6 +346,7 @@ class Program:
         self.modules: dict[str, Module] = {}
         self.by_path: dict[str, Module] = {}
         self.parse_errors: list[str] = []
+        _set_signatures(sources)
         for path in sorted(sources):
             rel = path[len(PKG_DIR) + 1 :]
             if rel in EXCLUDED:
@@ -704,12 +705,39 @@ class Program:
         return seen
 
 
-_PARSE_CACHE: dict[tuple[str, int, str], ast.Module] = {}
+_PARSE_CACHE: dict[tuple, ast.Module] = {}
+
+
+_SIG_CACHE: dict[tuple[str, int, str], tuple] = {}
+
+
+def _set_signatures(sources: dict[str, str]) -> None:
+    """the package-wide table of callee signatures used by the normal form (keyword -> positional)"""
+    from . import normal
+
+    per = []
+    paths = []
+    for path in sorted(sources):
+        if path[len(PKG_DIR) + 1 :] in EXCLUDED:
+            continue
+        paths.append(path)
+        key = (path, len(sources[path]), digest(sources[path]))
+        v = _SIG_CACHE.get(key)
+        if v is None:
+            try:
+                v = normal.module_signatures(ast.parse(sources[path], filename=path))
+            except SyntaxError:
+                v = ({}, {})
+            _SIG_CACHE[key] = v
+        per.append(v)
+    normal.set_signatures(per, paths)
 
 
 def _parse(path: str, src: str) -> ast.Module:
     """Trees are shared between a program and its in-memory variants; rules never mutate them."""
-    key = (path, len(src), digest(src))
+    from . import normal as _n
+
+    key = (path, len(src), digest(src), digest(_n.SIGS_VERSION))
     t = _PARSE_CACHE.get(key)
     if t is None:
         from .normal import normalise_module
@@ -738,6 +766,25 @@ def load_sources(repo: str = REPO) -> dict[str, str]:
                 rel = os.path.relpath(p, repo)
                 with open(p, encoding='utf-8') as fh:
                     out[rel] = fh.read()
+    return out
+
+
+def named_args(call: ast.Call) -> dict[str, str]:
+    """parameter name -> argument text of a call, whether the argument is written with a keyword or positionally (the
+    parameter list of the callee comes from the package-wide signature table of the normal form; without an entry only the
+    keywords are named)"""
+    from . import normal
+
+    out = {k.arg: unparse(k.value) for k in call.keywords if k.arg}
+    ps = None
+    if isinstance(call.func, ast.Name):
+        ps = normal.SIGS.get(call.func.id)
+    elif isinstance(call.func, ast.Attribute):
+        ps = normal.METHOD_SIGS.get(call.func.attr) or normal.SIGS.get(call.func.attr)
+    if ps:
+        for p_, a in zip(ps, call.args):
+            if not isinstance(a, ast.Starred):
+                out.setdefault(p_, unparse(a))
     return out
 
 
